@@ -2,6 +2,7 @@
 import IbexModel
 import Driver.Proto
 import Driver.OpsExpr
+import Driver.OpsBox
 namespace Ibex.Driver
 open Ibex Ibex.Proto
 open Ibex.Eval (buildCalls)
@@ -144,6 +145,23 @@ def opsSym (op : String) (ins outs : List String) : Option String :=
   | "diffunsupported", _, _ => pure "ok diffunsupported"
   | "resourcelimit", _, _ => pure "ok resource-limit-of-the-symbolic-layer (no claim)"
   | "harnesserror", _, _ => pure "FAIL exception-thrown-by-the-library"
+  | "gradt", [_, _, _, o], [z] =>
+    -- expressions with elementary functions: `o` = rigorous enclosures (MPFR forward differentiation, trusted oracle) of
+    -- the partial derivatives at a point of the box; each must belong to the gradient computed over the box
+    if o == "U" then pure "ok no-oracle-at-point" else do
+    let o ← parseBox o
+    if z == "E" then pure "FAIL empty-gradient-but-differentiable-at-point" else do
+    let z ← parseBox z
+    if o.length != z.length then pure "FAIL gradient-of-another-dimension" else
+    let pairs := List.zip o z
+    pure (if pairs.any (fun q => (Itv.inter q.1 q.2).isEmpty) then "FAIL derivative-outside-gradient"
+          else if pairs.all (fun q => Itv.subset q.1 q.2) then "ok derivative-enclosed elementary" else "ok derivative-at-the-bound-undecided")
+  | "difft", [_, _, o], [d] =>
+    if o == "U" || d == "U" then pure "ok no-oracle-at-point" else do
+    let o ← parseBox o; let d ← parseBox d
+    if o.length != d.length then pure "FAIL derivative-of-another-dimension" else
+    pure (if (List.zip o d).any (fun q => (Itv.inter q.1 q.2).isEmpty) then "FAIL symbolic-derivative-differs-from-the-derivative"
+          else "ok symbolic-derivative-agrees elementary")
   | _, _, _ => none
 
 end Ibex.Driver
